@@ -552,3 +552,55 @@ def guarded(fn, *args, **kwargs):
         if where is None:
             raise
         return 'exception', (type(exc).__name__, where, f'{type(exc).__name__}: {exc}'[:300])
+
+
+# ---------------------------------------------------------------------------
+# extras for the entry layer (C15)
+
+def weak_components(g: Graph) -> list:
+    """Weakly connected components as sorted node lists, ordered by smallest node."""
+    comp = {}
+    for x in range(g.n):
+        if x in comp:
+            continue
+        comp[x] = x
+        stack = [x]
+        while stack:
+            u = stack.pop()
+            for v in g.succ[u] + g.pred[u]:
+                if v not in comp:
+                    comp[v] = x
+                    stack.append(v)
+    return [[k for k in range(g.n) if comp[k] == r] for r in sorted(set(comp.values()))]
+
+
+def converging(g: Graph, x: int) -> bool:
+    """True when two different simple hypernym paths from x reach the same synset."""
+    arrivals = {}
+
+    def dfs(u, seen):
+        for v in g.succ[u]:
+            if v not in seen:
+                arrivals[v] = arrivals.get(v, 0) + 1
+                dfs(v, seen | {v})
+
+    dfs(x, frozenset([x]))
+    return any(c >= 2 for c in arrivals.values())
+
+
+def word_synsets(desc: dict, token: str) -> list:
+    """Reference lookup: nodes having a sense of an entry one of whose written
+    forms (lemma or other form) equals *token* exactly."""
+    nodes = set()
+    for w in desc.get('words') or []:
+        if token == w['form'] or token in (w.get('forms') or []):
+            nodes.update(w['nodes'])
+    return sorted(nodes)
+
+
+@st.composite
+def batch_of(draw, graph_strategy, sizes=(1, 8, 6, 10, 8)) -> dict:
+    """A case {'graphs': [...]}: batch size drawn from *sizes* (put 1 first so that
+    shrinking can reduce a failing batch to a single graph)."""
+    k = draw(st.sampled_from(list(sizes)))
+    return {'graphs': [draw(graph_strategy) for _ in range(k)]}
